@@ -50,9 +50,16 @@ def run(ck):
         pre, bE, preT, bET = tcommon.random_interstitial_data(nr, sl, jn, spread=rng.choice([1.0, 1.0, 4.0]))
         D = d.diffusivity(pre, bE, preT, bET)
         for k in range(len(jn)):
-            delta = float(nr.uniform(0.05, 3.0))
+            # every other class: lowered far enough that the transition state lies BELOW its end-site energies (rate above the
+            # attempt frequency - finite energies are all the property asks for)
+            delta = float(nr.uniform(0.05, 3.0)) if k % 2 == 0 else float(bET[k] - bE.min() + nr.uniform(0.2, 1.5))
             bET2 = bET.copy(); bET2[k] -= delta
-            D2 = d.diffusivity(pre, bE, preT, bET2)
+            try:
+                D2 = d.diffusivity(pre, bE, preT, bET2)
+            except Exception as e:
+                ck.violation("Interstitial.diffusivity raised %r after lowering TS class %d by %.3g" % (e, k, delta),
+                             {"crystal": repr(crys), "chem": chem, "cutoff": cut, "pre": pre.tolist(), "betaene": bE.tolist(), "preT": preT.tolist(),
+                              "betaeneT": bET2.tolist()}, key="c05-raise"); continue
             nint += 1
             m = tcommon.min_eig(D2 - D); scale = np.abs(D2).max()
             ck.case(key=("int", label, round(cut, 5), k, delta, pre.round(10).tolist()), nontrivial=True, kind="interstitial",
